@@ -112,6 +112,9 @@ def judge(ctx):
             # err <Kind> <buffer>
             if gen.unhexarg(bp[2]) != b'' or gen.unhexarg(pp[2]) != pre:
                 ctx.violate('an error return appended bytes to (or changed) the buffer', case=op, observed=[b, p[:200]])
+            # selections: err <Kind> <data> <offsets> -- the offsets vector must be as the caller passed it (empty) as well
+            if (len(bp) > 3 and bp[3]) or (len(pp) > 3 and pp[3]):
+                ctx.violate('an error return of a selection pushed offsets', case=op, observed=[b, p[:200]])
             continue
         db, dp = gen.unhexarg(bp[1]), gen.unhexarg(pp[1])
         if dp != pre + db:
